@@ -1,7 +1,11 @@
 import TvCore.Model.Run
 /-
   C11 — `Sim::run` succeeds exactly when every client finished Ok in time.
-  Model: `TV.Run` (sim.rs `run` / `step`, rt.rs `tick`).
+  Model: `TV.Run` (sim.rs `run` / `step`, rt.rs `tick`).  `Sim.fixLateRun` switches between the code before
+  (false) and after (true) the repair of F-C11-1 (a guard at the head of `Sim::step`); the theorems are stated
+  for both values unless they say otherwise.  Headline: `run_ok_iff_fixed` (repaired code, from any state),
+  `run_ok_iff_in_time` (unrepaired code, only for a run that begins within the duration), `witness_F_C11_1` /
+  `fixed_F_C11_1` (the corpus scenario), `run_fault` (an error as soon as a software returns one).
 -/
 namespace TV.C11
 open TV.Run
@@ -182,6 +186,35 @@ theorem tickAll_abortOk (tick k : Nat) (sws : List Sw) : AbortOk (tickAll tick k
     | errSoftware => exact Or.inr (Or.inl rfl)
     | panic => exact Or.inr (Or.inr rfl)
 
+/-! ### `step` with and without the repair of F-C11-1
+
+`Sim.fixLateRun` switches on the guard the repair puts at the head of `Sim::step` (`lateGuard`).  The theorems
+above are about the tick loop and do not see the flag.  Below, every statement holds for BOTH values of the
+flag; where the guard changes a statement the change is spelt out (`step_counts`, `timeout_iff`), and the
+statement of the unrepaired code is kept as the `…_faithful` corollary. -/
+
+theorem lateGuard_iff (m : Sim) : lateGuard m = true ↔
+    m.fixLateRun = true ∧ m.steps * m.tick > m.duration ∧ ∃ s ∈ m.sws, s.client = true ∧ s.running = true := by
+  unfold lateGuard
+  simp only [Bool.and_eq_true, decide_eq_true_eq, List.any_eq_true]
+  constructor
+  · rintro ⟨⟨h1, h2⟩, s, hs, h3⟩; exact ⟨h1, h2, s, hs, h3⟩
+  · rintro ⟨h1, h2, s, hs, h3⟩; exact ⟨⟨h1, h2⟩, s, hs, h3⟩
+
+theorem lateGuard_faithful (m : Sim) (h : m.fixLateRun = false) : lateGuard m = false := by
+  unfold lateGuard; simp [h]
+
+/-- **The repaired step refuses to begin late**: with the repair, a step that would begin after the duration
+    has elapsed while a client is still unfinished returns the timeout at once and changes nothing — no
+    software is ticked, `steps` / `elapsed` stay. -/
+theorem step_late (m : Sim) (h : lateGuard m = true) : step m = (m, .errTimeout) := by
+  unfold step; simp [h]
+
+theorem step_not_late (m : Sim) (h : lateGuard m = false) :
+    step m = stepOf m (tickAll m.tick (m.steps + 1) m.sws).1 (tickAll m.tick (m.steps + 1) m.sws).2.1
+      (tickAll m.tick (m.steps + 1) m.sws).2.2 := by
+  unfold step; simp [h]
+
 /-- `step` counts a step (and so advances `Sim::elapsed`) exactly when it does not abort. -/
 theorem stepOf_counts (m : Sim) (sws : List Sw) (fin : Bool) (a : Option StepRes) (ha : AbortOk a) :
     ((stepOf m sws fin a).2 = .errSoftware ∨ (stepOf m sws fin a).2 = .panic → (stepOf m sws fin a).1.steps = m.steps) ∧
@@ -193,47 +226,105 @@ theorem stepOf_counts (m : Sim) (sws : List Sw) (fin : Bool) (a : Option StepRes
   · simp
   · simp
 
+/-- **Which steps count** (both variants).  A step that aborts with a software error or a panic does not
+    advance `steps`; a step that answers `cont` always does; a step that reports the timeout does, unless it
+    is the guarded step of the repair, which leaves the whole state as it is.
+    (Statement adjusted for the flag: before the repair the third clause had no exception — that form is
+    `step_counts_faithful`.) -/
 theorem step_counts (m : Sim) :
     ((step m).2 = .errSoftware ∨ (step m).2 = .panic → (step m).1.steps = m.steps) ∧
-    ((∃ b, (step m).2 = .cont b) ∨ (step m).2 = .errTimeout → (step m).1.steps = m.steps + 1) :=
-  stepOf_counts m _ _ _ (tickAll_abortOk _ _ _)
+    ((∃ b, (step m).2 = .cont b) → (step m).1.steps = m.steps + 1) ∧
+    ((step m).2 = .errTimeout → if lateGuard m then (step m).1 = m else (step m).1.steps = m.steps + 1) := by
+  by_cases hg : lateGuard m = true
+  · rw [step_late m hg]; simp [hg]
+  · have hg' : lateGuard m = false := by simpa using hg
+    have h := stepOf_counts m (tickAll m.tick (m.steps + 1) m.sws).1 (tickAll m.tick (m.steps + 1) m.sws).2.1 _
+      (tickAll_abortOk m.tick (m.steps + 1) m.sws)
+    rw [step_not_late m hg']
+    refine ⟨h.1, fun hb => h.2 (Or.inl hb), fun ht => ?_⟩
+    simp only [hg', Bool.false_eq_true, if_false]
+    exact h.2 (Or.inr ht)
 
-/-- **Timeout**: a step reports the timeout iff nothing aborted, the duration is exceeded after
-    this step, and some client is still unfinished. -/
+theorem step_counts_faithful (m : Sim) (hf : m.fixLateRun = false) :
+    ((step m).2 = .errSoftware ∨ (step m).2 = .panic → (step m).1.steps = m.steps) ∧
+    ((∃ b, (step m).2 = .cont b) ∨ (step m).2 = .errTimeout → (step m).1.steps = m.steps + 1) := by
+  have h := step_counts m
+  refine ⟨h.1, fun hb => ?_⟩
+  rcases hb with hb | hb
+  · exact h.2.1 hb
+  · have := h.2.2 hb
+    simpa [lateGuard_faithful m hf] using this
+
+/-- **Timeout** (both variants): a step reports the timeout iff it is the guarded step of the repair (it
+    would begin with the duration already exceeded and a client unfinished), or nothing aborted, the
+    duration is exceeded after this step, and some client is still unfinished.
+    (Statement adjusted for the flag: the first disjunct is new; `timeout_iff_faithful` is the old form.) -/
 theorem timeout_iff (m : Sim) :
+    (step m).2 = .errTimeout ↔
+      lateGuard m = true ∨
+      ((tickAll m.tick (m.steps + 1) m.sws).2.2 = none ∧ (m.steps + 1) * m.tick > m.duration ∧
+       (tickAll m.tick (m.steps + 1) m.sws).2.1 = false) := by
+  by_cases hg : lateGuard m = true
+  · rw [step_late m hg]; simp [hg]
+  · have hg' : lateGuard m = false := by simpa using hg
+    have ha := tickAll_abortOk m.tick (m.steps + 1) m.sws
+    rw [step_not_late m hg']
+    simp only [hg', Bool.false_eq_true, false_or]
+    unfold stepOf
+    rcases ha with h | h | h
+    · rw [h]
+      simp only [true_and]
+      by_cases hd : (m.steps + 1) * m.tick > m.duration <;> cases (tickAll m.tick (m.steps + 1) m.sws).2.1 <;> simp [hd]
+    · rw [h]; simp
+    · rw [h]; simp
+
+theorem timeout_iff_faithful (m : Sim) (hf : m.fixLateRun = false) :
     (step m).2 = .errTimeout ↔
       (tickAll m.tick (m.steps + 1) m.sws).2.2 = none ∧ (m.steps + 1) * m.tick > m.duration ∧
       (tickAll m.tick (m.steps + 1) m.sws).2.1 = false := by
-  have ha := tickAll_abortOk m.tick (m.steps + 1) m.sws
-  unfold step stepOf
-  simp only
-  rcases ha with h | h | h
-  · rw [h]
-    simp only [true_and]
-    by_cases hd : (m.steps + 1) * m.tick > m.duration <;> cases (tickAll m.tick (m.steps + 1) m.sws).2.1 <;> simp [hd]
-  · rw [h]; simp
-  · rw [h]; simp
+  rw [timeout_iff m]; simp [lateGuard_faithful m hf]
 
-/-- once the duration is exceeded a step never says "not finished yet, keep going". -/
+/-- once the duration is exceeded a step never says "not finished yet, keep going" (both variants; unchanged). -/
 theorem late_step_decides (m : Sim) (h : (m.steps + 1) * m.tick > m.duration) : (step m).2 ≠ .cont false := by
-  have ha := tickAll_abortOk m.tick (m.steps + 1) m.sws
-  unfold step stepOf
-  simp only
-  rcases ha with h' | h' | h'
-  · rw [h']
-    cases (tickAll m.tick (m.steps + 1) m.sws).2.1 <;> simp [h]
-  · rw [h']; simp
-  · rw [h']; simp
+  by_cases hg : lateGuard m = true
+  · rw [step_late m hg]; simp
+  · have hg' : lateGuard m = false := by simpa using hg
+    have ha := tickAll_abortOk m.tick (m.steps + 1) m.sws
+    rw [step_not_late m hg']
+    unfold stepOf
+    rcases ha with h' | h' | h'
+    · rw [h']
+      cases (tickAll m.tick (m.steps + 1) m.sws).2.1 <;> simp [h]
+    · rw [h']; simp
+    · rw [h']; simp
 
-theorem step_tick (m : Sim) : (step m).1.tick = m.tick ∧ (step m).1.duration = m.duration := by
-  unfold step stepOf
-  simp only
-  cases (tickAll m.tick (m.steps + 1) m.sws).2.2 with
-  | some r => exact ⟨rfl, rfl⟩
-  | none => simp only; split <;> exact ⟨rfl, rfl⟩
+theorem step_tick (m : Sim) : (step m).1.tick = m.tick ∧ (step m).1.duration = m.duration ∧
+    (step m).1.fixLateRun = m.fixLateRun := by
+  by_cases hg : lateGuard m = true
+  · rw [step_late m hg]; exact ⟨rfl, rfl, rfl⟩
+  · have hg' : lateGuard m = false := by simpa using hg
+    rw [step_not_late m hg']
+    unfold stepOf
+    cases (tickAll m.tick (m.steps + 1) m.sws).2.2 with
+    | some r => exact ⟨rfl, rfl, rfl⟩
+    | none => simp only; split <;> exact ⟨rfl, rfl, rfl⟩
+
+/-- **`step` never polls finished software again** (both variants): software whose handle is gone is, after
+    the step, exactly as before — whether the step counted, aborted or was refused by the guard. -/
+theorem step_no_repoll (m : Sim) (i : Nat) (s : Sw) (h : m.sws[i]? = some s) (hr : s.running = false) :
+    (step m).1.sws[i]? = some s := by
+  by_cases hg : lateGuard m = true
+  · rw [step_late m hg]; exact h
+  · have hg' : lateGuard m = false := by simpa using hg
+    have hn := no_repoll m.tick (m.steps + 1) m.sws i s h hr
+    rw [step_not_late m hg']
+    unfold stepOf
+    cases (tickAll m.tick (m.steps + 1) m.sws).2.2 with
+    | some r => exact hn
+    | none => simp only; split <;> exact hn
 
 /-- **`run` always decides** (success, software error, timeout or panic) — it never runs out of
-    fuel: the loop needs at most ⌊duration/tick⌋ + 1 further steps. -/
+    fuel: the loop needs at most ⌊duration/tick⌋ + 1 further steps (both variants). -/
 theorem runLoop_decides : ∀ (fuel : Nat) (m : Sim), 0 < m.tick → m.duration < (m.steps + fuel) * m.tick →
     0 < fuel → (runLoop fuel m).2 ≠ .cont false
   | 0, _, _, _, hf => by omega
@@ -253,7 +344,7 @@ theorem runLoop_decides : ∀ (fuel : Nat) (m : Sim), 0 < m.tick → m.duration 
             have := late_step_decides m hl
             rw [hs] at this; exact this rfl
           have hst : m'.steps = m.steps + 1 := by
-            have := (step_counts m).2 (Or.inl ⟨false, by rw [hs]⟩)
+            have := (step_counts m).2.1 ⟨false, by rw [hs]⟩
             rw [hs] at this; exact this
           have htk := step_tick m
           rw [hs] at htk
@@ -262,27 +353,32 @@ theorem runLoop_decides : ∀ (fuel : Nat) (m : Sim), 0 < m.tick → m.duration 
             | zero => simp at hd; omega
             | succ f => omega
           apply runLoop_decides fuel m' (by rw [htk.1]; exact ht) ?_ hfuel
-          rw [hst, htk.1, htk.2]
+          rw [hst, htk.1, htk.2.1]
           have : m.steps + 1 + fuel = m.steps + (fuel + 1) := by omega
           rw [this]; exact hd
       | errSoftware => simp
       | errTimeout => simp
       | panic => simp
 
-theorem run_decides (m : Sim) (ht : 0 < m.tick) (hs : m.steps * m.tick ≤ m.duration + m.tick) :
-    (run m).2 ≠ .cont false := by
+theorem run_fuel (m : Sim) (ht : 0 < m.tick) :
+    m.duration < (m.steps + (m.duration / m.tick + 2 - m.steps + 1)) * m.tick := by
+  have h1 : m.duration < (m.duration / m.tick + 1) * m.tick := by
+    have := Nat.div_add_mod m.duration m.tick
+    have := Nat.mod_lt m.duration ht
+    rw [Nat.add_mul, Nat.one_mul, Nat.mul_comm]; omega
+  have h2 : m.duration / m.tick + 1 ≤ m.steps + (m.duration / m.tick + 2 - m.steps + 1) := by omega
+  exact Nat.lt_of_lt_of_le h1 (Nat.mul_le_mul_right _ h2)
+
+/-- **`run` decides from any state** (both variants).  Stronger than before the repair work: the former
+    hypothesis `steps * tick ≤ duration + tick` was never used — also a run that begins long after the
+    duration has elapsed ends after one step (its fuel is 1 and a late step decides). -/
+theorem run_decides (m : Sim) (ht : 0 < m.tick) : (run m).2 ≠ .cont false := by
   unfold run
   split
   · simp
-  · apply runLoop_decides _ m ht ?_ (by omega)
-    have h1 : m.duration < (m.duration / m.tick + 1) * m.tick := by
-      have := Nat.div_add_mod m.duration m.tick
-      have := Nat.mod_lt m.duration ht
-      rw [Nat.add_mul, Nat.one_mul, Nat.mul_comm]; omega
-    have h2 : m.duration / m.tick + 1 ≤ m.steps + (m.duration / m.tick + 2 - m.steps + 1) := by omega
-    exact Nat.lt_of_lt_of_le h1 (Nat.mul_le_mul_right _ h2)
+  · exact runLoop_decides _ m ht (run_fuel m ht) (by omega)
 
-/-- **Zero clients**: `run` returns Ok at once without stepping. -/
+/-- **Zero clients**: `run` returns Ok at once without stepping (both variants; unchanged). -/
 theorem run_zero_clients (m : Sim) (h : m.sws.any (·.client) = false) : run m = (m, .cont true) := by
   unfold run; simp [h]
 
@@ -293,5 +389,558 @@ example : (run (register { tick := 1000, duration := 2000 } { client := true, at
 example : (run (register { tick := 1000, duration := 2000 } { client := true, atUs := 3000, outcome := .ok })).2 = .errTimeout := by decide
 example : (run (register (register { tick := 1000, duration := 5000 } { client := true, atUs := 3000, outcome := .ok })
             { client := false, atUs := 1000, outcome := .err })).2 = .errSoftware := by decide
+example : (run (register { tick := 1000, duration := 2000, fixLateRun := true } { client := true, atUs := 2000, outcome := .ok })).2 = .cont true := by decide
+example : (run (register { tick := 1000, duration := 2000, fixLateRun := true } { client := true, atUs := 3000, outcome := .ok })).2 = .errTimeout := by decide
+
+/-! ### `run` decided from the starting state
+
+Every step that is not refused ticks every running software exactly once, so for running software the
+difference `steps − ticks` never changes: `finAt m s` — the global step in which `s` produces its outcome —
+can be read off any state of the run. -/
+
+/-- the global step (= number of completed steps when it is over) in which running software `s` produces
+    its outcome; meaningful when `s.ticks < s.finStep` (otherwise the instant is already past and `s` never
+    produces anything).  For software registered by `register` at `regStep` this is `regStep + ⌊at/tick⌋ + 1`.
+    That step BEGINS at `Sim::elapsed = (finAt − 1) · tick`. -/
+def finAt (m : Sim) (s : Sw) : Nat := m.steps + s.finStep m.tick - s.ticks
+
+/-- client `c` finishes Ok, and the step in which it does begins with `elapsed ≤ duration`
+    (`≤`, not `<`: the Rust tests `elapsed > duration`, so a step beginning exactly at the duration still runs). -/
+def InTime (m : Sim) (c : Sw) : Prop :=
+  c.effective = .ok ∧ c.ticks < c.finStep m.tick ∧ (finAt m c - 1) * m.tick ≤ m.duration
+
+/-- every client whose handle is still present finishes Ok in a step that begins within the duration.
+    (Clients whose handle is gone were judged by the `run` / `step` that took the handle.) -/
+def AllInTime (m : Sim) : Prop := ∀ c ∈ m.sws, c.client = true → c.running = true → InTime m c
+
+/-- no running software returns Err or panics up to and including global step `K`. -/
+def QuietUntil (m : Sim) (K : Nat) : Prop :=
+  ∀ s ∈ m.sws, s.running = true → (s.effective = .err ∨ s.effective = .panic) → s.ticks < s.finStep m.tick →
+    K < finAt m s
+
+/-- one software after a tick in which nothing aborted. -/
+def tickOne (tick : Nat) (s : Sw) : Sw :=
+  if firesAt tick 0 s then { s with running := false, ticks := s.ticks + 1 }
+  else if s.running then { s with ticks := s.ticks + 1 } else s
+
+/-- the state after a step that was neither refused nor aborted. -/
+def stepped (m : Sim) : Sim := { m with sws := m.sws.map (tickOne m.tick), steps := m.steps + 1 }
+
+theorem firesAt_iff (tick k : Nat) (s : Sw) : firesAt tick k s = true ↔
+    s.running = true ∧ s.finStep tick = s.ticks + 1 ∧ s.effective ≠ .never := by
+  unfold firesAt
+  simp only [Bool.and_eq_true, beq_iff_eq, bne_iff_ne, ne_eq, and_assoc]
+
+theorem tickAll_none_map (tick k : Nat) : ∀ (sws : List Sw), (tickAll tick k sws).2.2 = none →
+    (tickAll tick k sws).1 = sws.map (tickOne tick)
+  | [], _ => by simp [tickAll]
+  | x :: rest, hno => by
+    unfold tickAll at hno ⊢
+    by_cases hx : x.running = true
+    · simp only [hx, Bool.not_true, Bool.false_eq_true, if_false] at hno ⊢
+      by_cases hf : (x.finStep tick == x.ticks + 1 && x.effective != .never) = true
+      · simp only [hf, if_true] at hno ⊢
+        have hfire : firesAt tick 0 x = true := by
+          unfold firesAt; simp only [hx, Bool.true_and]; exact hf
+        cases he : x.effective with
+        | ok =>
+          simp only [he] at hno ⊢
+          rw [tickAll_none_map tick k rest hno]
+          simp [tickOne, hfire]
+        | err => simp [he] at hno
+        | never => simp [he] at hf
+        | panic => simp [he] at hno
+      · simp only [hf, Bool.false_eq_true, if_false] at hno ⊢
+        have hnf : firesAt tick 0 x = false := by
+          unfold firesAt; simp only [hx, Bool.true_and]; simpa using hf
+        rw [tickAll_none_map tick k rest hno]
+        simp [tickOne, hnf, hx]
+    · have hx' : x.running = false := by simpa using hx
+      simp only [hx', Bool.not_false, if_true] at hno ⊢
+      have hnf : firesAt tick 0 x = false := by
+        unfold firesAt; simp [hx']
+      rw [tickAll_none_map tick k rest hno]
+      simp [tickOne, hnf, hx']
+
+theorem no_abort_of_quiet (tick k : Nat) (sws : List Sw)
+    (h : ∀ s ∈ sws, firesAt tick k s = true → s.effective = .ok) : (tickAll tick k sws).2.2 = none := by
+  have hc := abort_has_cause tick k sws
+  rcases tickAll_abortOk tick k sws with h' | h' | h'
+  · exact h'
+  · obtain ⟨s, hs, hf, he⟩ := hc.1 h'
+    have := h s hs hf; rw [he] at this; cases this
+  · obtain ⟨s, hs, hf, he⟩ := hc.2.1 h'
+    have := h s hs hf; rw [he] at this; cases this
+
+/-- a step that is neither refused nor aborted, in closed form. -/
+theorem step_quiet (m : Sim) (hg : lateGuard m = false)
+    (hno : (tickAll m.tick (m.steps + 1) m.sws).2.2 = none) :
+    step m = (stepped m,
+      if (m.steps + 1) * m.tick > m.duration && !(tickAll m.tick (m.steps + 1) m.sws).2.1 then .errTimeout
+      else .cont (tickAll m.tick (m.steps + 1) m.sws).2.1) := by
+  rw [step_not_late m hg]
+  unfold stepOf
+  rw [hno, tickAll_none_map m.tick (m.steps + 1) m.sws hno]
+  simp only
+  split <;> rfl
+
+theorem quiet_now (m : Sim) (K : Nat) (hK : m.steps + 1 ≤ K) (hq : QuietUntil m K) :
+    ∀ s ∈ m.sws, firesAt m.tick (m.steps + 1) s = true → s.effective = .ok := by
+  intro s hs hf
+  obtain ⟨hr, hfs, hne⟩ := (firesAt_iff _ _ _).mp hf
+  cases he : s.effective with
+  | ok => rfl
+  | never => exact absurd he hne
+  | err =>
+    have := hq s hs hr (Or.inl he) (by omega)
+    unfold finAt at this; omega
+  | panic =>
+    have := hq s hs hr (Or.inr he) (by omega)
+    unfold finAt at this; omega
+
+theorem tickOne_running (tick : Nat) (c : Sw) (h : (tickOne tick c).running = true) :
+    c.running = true ∧ firesAt tick 0 c = false ∧ tickOne tick c = { c with ticks := c.ticks + 1 } := by
+  unfold tickOne at h ⊢
+  by_cases hf : firesAt tick 0 c = true
+  · simp [hf] at h
+  · have hf' : firesAt tick 0 c = false := by simpa using hf
+    by_cases hr : c.running = true
+    · simp [hf', hr]
+    · have hr' : c.running = false := by simpa using hr
+      simp [hf', hr'] at h
+
+theorem tickOne_idle (tick : Nat) (c : Sw) (hr : c.running = true) (hf : firesAt tick 0 c = false) :
+    tickOne tick c = { c with ticks := c.ticks + 1 } := by
+  unfold tickOne; simp [hf, hr]
+
+/-- a client that finishes Ok in the step beginning now, with `elapsed ≤ duration`, is in time. -/
+theorem inTime_of_fires (m : Sim) (c : Sw) (hf : firesAt m.tick (m.steps + 1) c = true) (he : c.effective = .ok)
+    (hd : m.steps * m.tick ≤ m.duration) : InTime m c := by
+  obtain ⟨_, hfs, _⟩ := (firesAt_iff _ _ _).mp hf
+  refine ⟨he, by omega, ?_⟩
+  have : finAt m c - 1 = m.steps := by unfold finAt; omega
+  rw [this]; exact hd
+
+/-- the guard of the repair fires only when some client can no longer be in time. -/
+theorem late_not_allInTime (m : Sim) (hg : lateGuard m = true) : ¬ AllInTime m := by
+  obtain ⟨_, hl, c, hc, hcl, hr⟩ := (lateGuard_iff m).mp hg
+  intro hall
+  obtain ⟨_, hlt, hle⟩ := hall c hc hcl hr
+  have h1 : m.steps ≤ finAt m c - 1 := by unfold finAt; omega
+  have h2 := Nat.le_trans (Nat.mul_le_mul_right m.tick h1) hle
+  omega
+
+theorem allInTime_of_fin (m : Sim) (hnow : ∀ s ∈ m.sws, firesAt m.tick (m.steps + 1) s = true → s.effective = .ok)
+    (hfin : (tickAll m.tick (m.steps + 1) m.sws).2.1 = true)
+    (hin : ∀ c ∈ m.sws, c.client = true → c.running = true → m.steps * m.tick ≤ m.duration) : AllInTime m := by
+  have hno := no_abort_of_quiet _ _ _ hnow
+  have h := (finished_iff m.tick (m.steps + 1) m.sws hno).mp hfin
+  intro c hc hcl hr
+  obtain ⟨hf, he⟩ := h c hc hr hcl
+  exact inTime_of_fires m c hf he (hin c hc hcl hr)
+
+theorem fin_of_allInTime_late (m : Sim) (hnow : ∀ s ∈ m.sws, firesAt m.tick (m.steps + 1) s = true → s.effective = .ok)
+    (hall : AllInTime m) (hl : (m.steps + 1) * m.tick > m.duration) :
+    (tickAll m.tick (m.steps + 1) m.sws).2.1 = true := by
+  have hno := no_abort_of_quiet _ _ _ hnow
+  apply (finished_iff m.tick (m.steps + 1) m.sws hno).mpr
+  intro c hc hr hcl
+  obtain ⟨he, hlt, hle⟩ := hall c hc hcl hr
+  refine ⟨(firesAt_iff _ _ _).mpr ⟨hr, ?_, by rw [he]; simp⟩, he⟩
+  apply Classical.byContradiction
+  intro hne
+  have h1 : m.steps + 1 ≤ finAt m c - 1 := by unfold finAt; omega
+  have h2 := Nat.le_trans (Nat.mul_le_mul_right m.tick h1) hle
+  omega
+
+theorem finAt_stepped (m : Sim) (c : Sw) :
+    finAt (stepped m) { c with ticks := c.ticks + 1 } = finAt m c := by
+  show m.steps + 1 + c.finStep m.tick - (c.ticks + 1) = m.steps + c.finStep m.tick - c.ticks
+  omega
+
+theorem allInTime_stepped (m : Sim) (hnow : ∀ s ∈ m.sws, firesAt m.tick (m.steps + 1) s = true → s.effective = .ok)
+    (hd : (m.steps + 1) * m.tick ≤ m.duration) : AllInTime m ↔ AllInTime (stepped m) := by
+  have hd0 : m.steps * m.tick ≤ m.duration :=
+    Nat.le_trans (Nat.mul_le_mul_right m.tick (Nat.le_succ m.steps)) hd
+  constructor
+  · intro hall c' hc' hcl' hr'
+    obtain ⟨c, hc, rfl⟩ := List.mem_map.mp hc'
+    obtain ⟨hr, hnf, heq⟩ := tickOne_running m.tick c hr'
+    rw [heq] at hcl' ⊢
+    obtain ⟨he, hlt, hle⟩ := hall c hc hcl' hr
+    have hne : c.finStep m.tick ≠ c.ticks + 1 := by
+      intro h
+      have : firesAt m.tick 0 c = true := (firesAt_iff _ _ _).mpr ⟨hr, h, by rw [he]; simp⟩
+      rw [hnf] at this; cases this
+    refine ⟨he, ?_, ?_⟩
+    · show c.ticks + 1 < c.finStep m.tick
+      omega
+    · rw [finAt_stepped]; exact hle
+  · intro hall c hc hcl hr
+    by_cases hf : firesAt m.tick 0 c = true
+    · exact inTime_of_fires m c hf (hnow c hc hf) hd0
+    · have hnf : firesAt m.tick 0 c = false := by simpa using hf
+      have heq := tickOne_idle m.tick c hr hnf
+      have hmem : ({ c with ticks := c.ticks + 1 } : Sw) ∈ (stepped m).sws := by
+        rw [← heq]; exact List.mem_map.mpr ⟨c, hc, rfl⟩
+      obtain ⟨he, hlt, hle⟩ := hall _ hmem hcl hr
+      rw [finAt_stepped] at hle
+      have hlt' : c.ticks + 1 < c.finStep m.tick := hlt
+      exact ⟨he, by omega, hle⟩
+
+theorem quietUntil_stepped (m : Sim) (K : Nat) (hq : QuietUntil m K) : QuietUntil (stepped m) K := by
+  intro s' hs' hr' he' hlt'
+  obtain ⟨s, hs, rfl⟩ := List.mem_map.mp hs'
+  obtain ⟨hr, _, heq⟩ := tickOne_running m.tick s hr'
+  rw [heq] at he' hlt' ⊢
+  rw [finAt_stepped]
+  have hlt : s.ticks + 1 < s.finStep m.tick := hlt'
+  exact hq s hs hr he' (by omega)
+
+/-- the loop of `run`, decided from its starting state.  `K` is the horizon up to which no software error or
+    panic is due; the disjunction says the loop begins within the duration or the repair is in. -/
+theorem runLoop_spec (K : Nat) : ∀ (fuel : Nat) (m : Sim), 0 < m.tick →
+    m.duration < (m.steps + fuel) * m.tick → 0 < fuel →
+    (m.fixLateRun = true ∨ m.steps * m.tick ≤ m.duration) →
+    m.duration / m.tick + 1 ≤ K → m.steps + 1 ≤ K → QuietUntil m K →
+    ((AllInTime m → (runLoop fuel m).2 = .cont true) ∧ (¬ AllInTime m → (runLoop fuel m).2 = .errTimeout))
+  | 0, _, _, _, hf, _, _, _, _ => by omega
+  | fuel + 1, m, ht, hd, _, hflag, hK1, hK2, hq => by
+    by_cases hg : lateGuard m = true
+    · have hnot := late_not_allInTime m hg
+      unfold runLoop
+      rw [step_late m hg]
+      exact ⟨fun h => absurd h hnot, fun _ => rfl⟩
+    · have hg' : lateGuard m = false := by simpa using hg
+      have hnow := quiet_now m K hK2 hq
+      have hno := no_abort_of_quiet _ _ _ hnow
+      have hstep := step_quiet m hg' hno
+      have hin : ∀ c ∈ m.sws, c.client = true → c.running = true → m.steps * m.tick ≤ m.duration := by
+        intro c hc hcl hr
+        rcases hflag with hfl | hle
+        · apply Classical.byContradiction
+          intro hgt
+          have : lateGuard m = true := (lateGuard_iff m).mpr ⟨hfl, by omega, c, hc, hcl, hr⟩
+          rw [hg'] at this; cases this
+        · exact hle
+      unfold runLoop
+      rw [hstep]
+      cases hfin : (tickAll m.tick (m.steps + 1) m.sws).2.1 with
+      | true =>
+        have hall := allInTime_of_fin m hnow hfin hin
+        simp only [Bool.not_true, Bool.and_false, Bool.false_eq_true, if_false]
+        exact ⟨fun _ => trivial, fun h => absurd hall h⟩
+      | false =>
+        by_cases hl : (m.steps + 1) * m.tick > m.duration
+        · have hnot : ¬ AllInTime m := by
+            intro hall
+            have := fin_of_allInTime_late m hnow hall hl
+            rw [hfin] at this; cases this
+          simp only [hl, decide_true, Bool.not_false, Bool.and_self, if_true]
+          exact ⟨fun h => absurd h hnot, fun _ => trivial⟩
+        · have hle : (m.steps + 1) * m.tick ≤ m.duration := by omega
+          simp only [hl, decide_false, Bool.false_and, Bool.false_eq_true, if_false]
+          have hfuel : 0 < fuel := by
+            cases fuel with
+            | zero => simp at hd; omega
+            | succ f => omega
+          have hd' : (stepped m).duration < ((stepped m).steps + fuel) * (stepped m).tick := by
+            show m.duration < (m.steps + 1 + fuel) * m.tick
+            have : m.steps + 1 + fuel = m.steps + (fuel + 1) := by omega
+            rw [this]; exact hd
+          have hK2' : (stepped m).steps + 1 ≤ K := by
+            show m.steps + 1 + 1 ≤ K
+            have := (Nat.le_div_iff_mul_le ht).mpr hle
+            omega
+          have ih := runLoop_spec K fuel (stepped m) ht hd' hfuel (Or.inr hle) hK1 hK2'
+            (quietUntil_stepped m K hq)
+          rw [← allInTime_stepped m hnow hle] at ih
+          exact ih
+
+/-- the quiet horizon of a whole `run`: the steps `run` can execute are those that begin within the
+    duration — global steps up to `⌊duration/tick⌋ + 1` — and, when it begins later than that with no client
+    left running, the one step `steps + 1`. -/
+def horizon (m : Sim) : Nat := max (m.steps + 1) (m.duration / m.tick + 1)
+
+/-- **`run`, decided from its starting state** (both variants).  Assume the run begins within the duration
+    (`steps · tick ≤ duration`) or the repair is in, and no software error or panic is due in a step the run
+    can execute.  Then `run` returns Ok iff every client still running finishes Ok in a step that BEGINS
+    within the duration (`(finAt − 1) · tick ≤ duration`), and the timeout otherwise.  Host software that
+    never finishes does not enter the condition. -/
+theorem run_spec (m : Sim) (ht : 0 < m.tick) (hflag : m.fixLateRun = true ∨ m.steps * m.tick ≤ m.duration)
+    (hq : QuietUntil m (horizon m)) :
+    ((run m).2 = .cont true ↔ AllInTime m) ∧ ((run m).2 = .errTimeout ↔ ¬ AllInTime m) := by
+  have key : (AllInTime m → (run m).2 = .cont true) ∧ (¬ AllInTime m → (run m).2 = .errTimeout) := by
+    unfold run
+    split
+    · rename_i hnc
+      have hall : AllInTime m := by
+        intro c hc hcl _
+        have : m.sws.any (·.client) = true := List.any_eq_true.mpr ⟨c, hc, hcl⟩
+        rw [this] at hnc; simp at hnc
+      exact ⟨fun _ => rfl, fun h => absurd hall h⟩
+    · exact runLoop_spec (horizon m) _ m ht (run_fuel m ht) (by omega) hflag
+        (Nat.le_max_right _ _) (Nat.le_max_left _ _) hq
+  by_cases hall : AllInTime m
+  · have h := key.1 hall
+    exact ⟨⟨fun _ => hall, fun _ => h⟩, ⟨fun h' => (by rw [h] at h'; cases h'), fun h' => absurd hall h'⟩⟩
+  · have h := key.2 hall
+    exact ⟨⟨fun h' => (by rw [h] at h'; cases h'), fun h' => absurd h' hall⟩, ⟨fun _ => hall, fun _ => h⟩⟩
+
+/-- **C11 for the repaired code — the clean form F-C11-1 was the exception to.**  With the repair, from ANY
+    state — any number of completed steps, in particular also when the duration has already elapsed —
+    `run` returns Ok iff every client still running finishes Ok in a step that begins with
+    `elapsed ≤ duration`, i.e. `(finAt − 1) · tick ≤ duration`, and returns the timeout otherwise, provided no
+    software error or panic is due up to the horizon.  Boundary: a step beginning with `elapsed = duration`
+    exactly may still complete clients (the Rust tests `>`), one beginning later may not. -/
+theorem run_ok_iff_fixed (m : Sim) (ht : 0 < m.tick) (hf : m.fixLateRun = true) (hq : QuietUntil m (horizon m)) :
+    ((run m).2 = .cont true ↔ AllInTime m) ∧ ((run m).2 = .errTimeout ↔ ¬ AllInTime m) :=
+  run_spec m ht (Or.inl hf) hq
+
+/-- the same with the plain hypothesis "no running software returns Err or panics at all". -/
+theorem run_ok_iff_fixed_nofault (m : Sim) (ht : 0 < m.tick) (hf : m.fixLateRun = true)
+    (hq : ∀ s ∈ m.sws, s.running = true → s.effective = .ok ∨ s.effective = .never) :
+    ((run m).2 = .cont true ↔ AllInTime m) ∧ ((run m).2 = .errTimeout ↔ ¬ AllInTime m) := by
+  apply run_ok_iff_fixed m ht hf
+  intro s hs hr he _
+  rcases hq s hs hr with h | h <;> rcases he with he | he <;> rw [h] at he <;> cases he
+
+/-- **Before the repair** the same equivalence holds only for a run that begins within the duration —
+    `witness_F_C11_1` shows that the hypothesis cannot be dropped. -/
+theorem run_ok_iff_in_time (m : Sim) (ht : 0 < m.tick) (hs : m.steps * m.tick ≤ m.duration)
+    (hq : QuietUntil m (horizon m)) :
+    ((run m).2 = .cont true ↔ AllInTime m) ∧ ((run m).2 = .errTimeout ↔ ¬ AllInTime m) :=
+  run_spec m ht (Or.inr hs) hq
+
+/-- **A late run is refused, state untouched** (repaired code): if the duration has already elapsed and a
+    client is unfinished, `run` returns the timeout and the simulation is exactly as it was. -/
+theorem run_late_fixed (m : Sim) (hg : lateGuard m = true) : run m = (m, .errTimeout) := by
+  obtain ⟨_, _, c, hc, hcl, _⟩ := (lateGuard_iff m).mp hg
+  have hany : m.sws.any (·.client) = true := List.any_eq_true.mpr ⟨c, hc, hcl⟩
+  unfold run
+  simp only [hany, Bool.not_true, Bool.false_eq_true, if_false]
+  have : m.duration / m.tick + 2 - m.steps + 1 = (m.duration / m.tick + 2 - m.steps) + 1 := rfl
+  rw [this]
+  unfold runLoop
+  rw [step_late m hg]
+
+/-! ### F-C11-1: the corpus scenario, before and after the repair
+
+duration 2 ms, tick 1 ms.  The first run ends Ok after 3 steps (its client finishes at 2 ms, in the step that
+crosses the duration) with `elapsed` = 3 ms > 2 ms.  A client registered then, finishing at once, makes a
+second `run` succeed before the repair; with the repair the second run is refused and nothing changes. -/
+
+def sc1 (fix : Bool) : Sim :=
+  register { tick := 1000, duration := 2000, fixLateRun := fix } { client := true, atUs := 2000, outcome := .ok }
+/-- the state in which the second run begins. -/
+def sc2 (fix : Bool) : Sim := register (run (sc1 fix)).1 { client := true, atUs := 0, outcome := .ok }
+
+/-- **Witness of F-C11-1** (unrepaired code): the second run begins with elapsed 3 ms > duration 2 ms, its
+    client completes after the duration had elapsed (it is not in time), and `run` still returns Ok —
+    the conclusion of `run_ok_iff_in_time` fails without its hypothesis. -/
+theorem witness_F_C11_1 :
+    (run (sc1 false)).2 = .cont true ∧ (run (sc1 false)).1.steps = 3 ∧
+    (sc2 false).steps * (sc2 false).tick > (sc2 false).duration ∧
+    (run (sc2 false)).2 = .cont true ∧ (run (sc2 false)).1.steps = 4 := by decide
+
+theorem witness_F_C11_1_not_in_time : ¬ AllInTime (sc2 false) := by
+  intro h
+  have hm : ({ client := true, atUs := 0, outcome := .ok, regStep := 3 } : Sw) ∈ (sc2 false).sws :=
+    List.mem_of_getElem? (i := 1) rfl
+  have h2 := (h _ hm rfl rfl).2.2
+  revert h2; decide
+
+/-- **The repair on the same scenario**: the first run is as before; the second returns the timeout and
+    leaves the state as it was. -/
+theorem fixed_F_C11_1 :
+    (run (sc1 true)).2 = .cont true ∧ (run (sc1 true)).1.steps = 3 ∧
+    (run (sc2 true)).2 = .errTimeout ∧ (run (sc2 true)).1.steps = 3 ∧
+    (run (sc2 true)).1.sws.map (fun s => (s.running, s.ticks)) = (sc2 true).sws.map (fun s => (s.running, s.ticks)) := by
+  decide
+
+/-- … and in full: the state after the refused run IS the state before it. -/
+theorem fixed_F_C11_1_state : run (sc2 true) = (sc2 true, .errTimeout) :=
+  run_late_fixed _ (by decide)
+
+/-- The clean form of the property as one statement per code variant (findings pattern, CONVENTIONS §1):
+    from any state, absent software errors up to the horizon, `run` returns Ok iff every client still running
+    finishes Ok in a step that begins within the duration. -/
+def RunOkIff (fix : Bool) : Prop :=
+  ∀ m : Sim, m.fixLateRun = fix → 0 < m.tick → QuietUntil m (horizon m) → ((run m).2 = .cont true ↔ AllInTime m)
+
+/-- the repaired code satisfies it … -/
+theorem RunOkIff_fixed : RunOkIff true := fun m hf ht hq => (run_ok_iff_fixed m ht hf hq).1
+
+/-- … the code before the repair does not (F-C11-1). -/
+theorem RunOkIff_witness : ¬ RunOkIff false := by
+  intro h
+  have hq : QuietUntil (sc2 false) (horizon (sc2 false)) := by
+    intro s hs _ he; revert he; revert s; decide
+  exact witness_F_C11_1_not_in_time ((h (sc2 false) rfl (by decide) hq).mp (by decide))
+
+/-! non-vacuity of `run_ok_iff_fixed` / `run_spec`: both sides of each equivalence occur, with the repair in and
+    the duration already elapsed (`sc2 true`: refused), within the duration (`sc1 true`: Ok), on the boundary
+    (a step beginning at elapsed = duration exactly still completes a client; one tick later does not), and
+    with a host error due only beyond the horizon. -/
+example : QuietUntil (sc2 true) (horizon (sc2 true)) := by
+  intro s hs _ he; revert he; revert s; decide
+example : (run (sc2 true)).2 = .errTimeout := by decide
+example : QuietUntil (sc1 true) (horizon (sc1 true)) := by
+  intro s hs _ he; revert he; revert s; decide
+example : AllInTime (sc1 true) := ((run_ok_iff_fixed_nofault (sc1 true) (by decide) rfl (by decide)).1).mp (by decide)
+example : (run (register { tick := 1000, duration := 2000, fixLateRun := true } { client := true, atUs := 2999, outcome := .ok })).2 = .cont true := by decide
+example : (run (register { tick := 1000, duration := 2000, fixLateRun := true } { client := true, atUs := 3000, outcome := .ok })).2 = .errTimeout := by decide
+/-- a host whose Err is due in global step 5 > horizon 3 does not disturb the run. -/
+def sc3 : Sim := register (sc1 true) { client := false, atUs := 4000, outcome := .err }
+example : QuietUntil sc3 (horizon sc3) := by
+  intro s hs _ he hlt
+  have : s = { client := true, atUs := 2000, outcome := .ok } ∨ s = { client := false, atUs := 4000, outcome := .err } := by
+    simpa [sc3, sc1, register] using hs
+  rcases this with rfl | rfl
+  · rcases he with he | he <;> cases he
+  · decide
+example : (run sc3).2 = .cont true := by decide
+
+/-! ### "an error as soon as any software returns an error", at the level of `run` -/
+
+theorem none_all_ok (tick k : Nat) : ∀ (sws : List Sw), (tickAll tick k sws).2.2 = none →
+    ∀ s ∈ sws, firesAt tick k s = true → s.effective = .ok
+  | [], _ => by simp
+  | x :: rest, hno => by
+    unfold tickAll at hno
+    intro s hs hf
+    by_cases hx : x.running = true
+    · simp only [hx, Bool.not_true, Bool.false_eq_true, if_false] at hno
+      by_cases hfx : (x.finStep tick == x.ticks + 1 && x.effective != .never) = true
+      · simp only [hfx, if_true] at hno
+        cases he : x.effective with
+        | ok =>
+          simp only [he] at hno
+          rcases List.mem_cons.mp hs with hs | hs
+          · rw [hs]; exact he
+          · exact none_all_ok tick k rest hno s hs hf
+        | err => simp [he] at hno
+        | never => simp [he] at hfx
+        | panic => simp [he] at hno
+      · simp only [hfx, Bool.false_eq_true, if_false] at hno
+        rcases List.mem_cons.mp hs with hs | hs
+        · exfalso
+          rw [hs] at hf
+          unfold firesAt at hf; simp only [hx, Bool.true_and] at hf
+          exact hfx hf
+        · exact none_all_ok tick k rest hno s hs hf
+    · have hx' : x.running = false := by simpa using hx
+      simp only [hx', Bool.not_false, if_true] at hno
+      rcases List.mem_cons.mp hs with hs | hs
+      · exfalso
+        rw [hs] at hf
+        unfold firesAt at hf; simp [hx'] at hf
+      · exact none_all_ok tick k rest hno s hs hf
+
+/-- the converse of `abort_has_cause`: a running software that returns Err or panics in this step aborts it. -/
+theorem fault_aborts (tick k : Nat) (sws : List Sw) (s : Sw) (hs : s ∈ sws) (hf : firesAt tick k s = true)
+    (he : s.effective = .err ∨ s.effective = .panic) :
+    (tickAll tick k sws).2.2 = some .errSoftware ∨ (tickAll tick k sws).2.2 = some .panic := by
+  rcases tickAll_abortOk tick k sws with h | h | h
+  · have := none_all_ok tick k sws h s hs hf
+    rcases he with he | he <;> rw [this] at he <;> cases he
+  · exact Or.inl h
+  · exact Or.inr h
+
+/-- client `c` has finished Ok before global step `g` begins. -/
+def DoneBefore (m : Sim) (g : Nat) (c : Sw) : Prop :=
+  c.effective = .ok ∧ c.ticks < c.finStep m.tick ∧ finAt m c < g
+
+theorem runLoop_fault (g : Nat) : ∀ (fuel : Nat) (m : Sim), g ≤ m.steps + fuel →
+    QuietUntil m (g - 1) → (g - 1) * m.tick ≤ m.duration →
+    (∃ s ∈ m.sws, s.running = true ∧ (s.effective = .err ∨ s.effective = .panic) ∧ s.ticks < s.finStep m.tick ∧
+      finAt m s = g) →
+    (∃ c ∈ m.sws, c.client = true ∧ c.running = true ∧ ¬ DoneBefore m g c) →
+    ((runLoop fuel m).2 = .errSoftware ∨ (runLoop fuel m).2 = .panic) ∧ (runLoop fuel m).1.steps = g - 1
+  | 0, m, hfuel, _, _, ⟨s, _, _, _, hlt, hg⟩, _ => by
+    exfalso; unfold finAt at hg; omega
+  | fuel + 1, m, hfuel, hq, hd, ⟨s, hs, hr, he, hlt, hg⟩, ⟨c, hc, hcl, hcr, hnd⟩ => by
+    have hn : m.steps + 1 ≤ g := by unfold finAt at hg; omega
+    have hd0 : m.steps * m.tick ≤ m.duration :=
+      Nat.le_trans (Nat.mul_le_mul_right m.tick (by omega)) hd
+    have hg' : lateGuard m = false := by
+      cases h : lateGuard m with
+      | false => rfl
+      | true => have := ((lateGuard_iff m).mp h).2.1; omega
+    by_cases hnow : g = m.steps + 1
+    · -- the fault fires in this very step
+      have hf : firesAt m.tick (m.steps + 1) s = true :=
+        (firesAt_iff _ _ _).mpr ⟨hr, by unfold finAt at hg; omega, by rcases he with he | he <;> rw [he] <;> simp⟩
+      have hab := fault_aborts m.tick (m.steps + 1) m.sws s hs hf he
+      unfold runLoop
+      rw [step_not_late m hg']
+      unfold stepOf
+      rcases hab with hab | hab <;> rw [hab] <;> simp <;> omega
+    · have hK : m.steps + 1 ≤ g - 1 := by omega
+      have hq' := quiet_now m (g - 1) hK hq
+      have hno := no_abort_of_quiet _ _ _ hq'
+      have hcnf : firesAt m.tick 0 c = false := by
+        cases hcf : firesAt m.tick 0 c with
+        | false => rfl
+        | true =>
+          exfalso
+          obtain ⟨_, hfs, _⟩ := (firesAt_iff _ _ _).mp hcf
+          exact hnd ⟨hq' c hc hcf, by omega, by unfold finAt; omega⟩
+      have hfin : (tickAll m.tick (m.steps + 1) m.sws).2.1 = false := by
+        cases hfin : (tickAll m.tick (m.steps + 1) m.sws).2.1 with
+        | false => rfl
+        | true =>
+          have := ((finished_iff m.tick (m.steps + 1) m.sws hno).mp hfin c hc hcr hcl).1
+          rw [show firesAt m.tick (m.steps + 1) c = firesAt m.tick 0 c from rfl, hcnf] at this; cases this
+      have hle : (m.steps + 1) * m.tick ≤ m.duration :=
+        Nat.le_trans (Nat.mul_le_mul_right m.tick hK) hd
+      have hnl : ¬ (m.steps + 1) * m.tick > m.duration := by omega
+      unfold runLoop
+      rw [step_quiet m hg' hno, hfin]
+      simp only [hnl, decide_false, Bool.false_and, Bool.false_eq_true, if_false]
+      have hsnf : firesAt m.tick 0 s = false := by
+        cases hsf : firesAt m.tick 0 s with
+        | false => rfl
+        | true =>
+          exfalso
+          obtain ⟨_, hfs, _⟩ := (firesAt_iff _ _ _).mp hsf
+          unfold finAt at hg; omega
+      have hs' : ({ s with ticks := s.ticks + 1 } : Sw) ∈ (stepped m).sws := by
+        rw [← tickOne_idle m.tick s hr hsnf]; exact List.mem_map.mpr ⟨s, hs, rfl⟩
+      have hc' : ({ c with ticks := c.ticks + 1 } : Sw) ∈ (stepped m).sws := by
+        rw [← tickOne_idle m.tick c hcr hcnf]; exact List.mem_map.mpr ⟨c, hc, rfl⟩
+      have hsne : s.finStep m.tick ≠ s.ticks + 1 := by unfold finAt at hg; omega
+      apply runLoop_fault g fuel (stepped m) (by show g ≤ m.steps + 1 + fuel; omega)
+        (quietUntil_stepped m (g - 1) hq) hd
+      · refine ⟨_, hs', hr, he, ?_, ?_⟩
+        · show s.ticks + 1 < s.finStep m.tick
+          omega
+        · rw [finAt_stepped]; exact hg
+      · refine ⟨_, hc', hcl, hcr, ?_⟩
+        rintro ⟨h1, h2, h3⟩
+        rw [finAt_stepped] at h3
+        have h2' : c.ticks + 1 < c.finStep m.tick := h2
+        exact hnd ⟨h1, by omega, h3⟩
+
+/-- **An error as soon as a software returns one** (both variants): if the earliest software error / panic is
+    due in global step `g`, that step begins within the duration, and some client has not finished Ok before
+    it begins, then `run` executes exactly the `g − 1` steps before it and returns the software error (or
+    panics) in step `g` — neither success nor the timeout pre-empts it. -/
+theorem run_fault (m : Sim) (ht : 0 < m.tick) (g : Nat) (hq : QuietUntil m (g - 1)) (hd : (g - 1) * m.tick ≤ m.duration)
+    (hs : ∃ s ∈ m.sws, s.running = true ∧ (s.effective = .err ∨ s.effective = .panic) ∧ s.ticks < s.finStep m.tick ∧
+      finAt m s = g)
+    (hc : ∃ c ∈ m.sws, c.client = true ∧ c.running = true ∧ ¬ DoneBefore m g c) :
+    ((run m).2 = .errSoftware ∨ (run m).2 = .panic) ∧ (run m).1.steps = g - 1 := by
+  obtain ⟨c, hcm, hcl, hcr, hnd⟩ := hc
+  have hany : m.sws.any (·.client) = true := List.any_eq_true.mpr ⟨c, hcm, hcl⟩
+  unfold run
+  simp only [hany, Bool.not_true, Bool.false_eq_true, if_false]
+  apply runLoop_fault g _ m ?_ hq hd hs ⟨c, hcm, hcl, hcr, hnd⟩
+  have := (Nat.le_div_iff_mul_le ht).mpr hd
+  omega
+
+/-- non-vacuity: a host Err due in step 2 while the client needs step 3 — `run` stops in step 2, one step counted. -/
+example : (run (register (sc1 true) { client := false, atUs := 1000, outcome := .err })).2 = .errSoftware ∧
+    (run (register (sc1 true) { client := false, atUs := 1000, outcome := .err })).1.steps = 1 := by decide
 
 end TV.C11
